@@ -42,6 +42,18 @@ func splitArgs(s string) []string {
 	return out
 }
 
+// conjuncts flattens a top-level (and ...) term.
+func conjuncts(g string) []string {
+	if !strings.HasPrefix(g, "(and ") {
+		return []string{g}
+	}
+	var out []string
+	for _, p := range splitArgs(g)[1:] {
+		out = append(out, conjuncts(p)...)
+	}
+	return out
+}
+
 // simplifySel reduces (s-len (mk-slice r o l c)) etc. to the component.
 func simplifySel(s string) string {
 	a := splitArgs(s)
